@@ -459,11 +459,41 @@ def asset_initialize(ctx, o):
             o.fail(P, f'{c.name}.initialize', 'super().initialize(env)', f'{c.name}.initialize runs Asset.initialize twice', file=c.mod.path, line=c.node.lineno)
 
 
+def _desugar_comprehension(fn):
+    """`return [elt for v in it if cond]` (directly or through one local) is rewritten as the equivalent loop
+    `rtn = []; for v in it: if cond: rtn.append(elt); return rtn` so that both spellings are analysed by the same path rule"""
+    import copy
+    body = [s_ for s_ in fn.body if not (isinstance(s_, ast.Expr) and isinstance(s_.value, ast.Constant))]
+    comp, rest, name = None, None, None
+    if body and isinstance(body[-1], ast.Return) and isinstance(body[-1].value, ast.ListComp):
+        comp, rest, name = body[-1].value, body[:-1], '_rtn'
+    elif len(body) >= 2 and isinstance(body[-1], ast.Return) and isinstance(body[-1].value, ast.Name) and isinstance(body[-2], ast.Assign) \
+            and isinstance(body[-2].value, ast.ListComp) and [ast.unparse(t) for t in body[-2].targets] == [body[-1].value.id]:
+        comp, rest, name = body[-2].value, body[:-2], body[-1].value.id
+    if comp is None or len(comp.generators) != 1 or comp.generators[0].is_async:
+        return fn
+    gen = comp.generators[0]
+    tv = ast.unparse(gen.target)
+    cond = ' and '.join(f'({ast.unparse(c)})' for c in gen.ifs) or 'True'
+    src = f'def _f():\n    {name} = []\n    for {tv} in {ast.unparse(gen.iter)}:\n        if {cond}:\n            {name}.append({ast.unparse(comp.elt)})\n    return {name}\n'
+    new_body = ast.parse(src).body[0].body
+    for n_ in new_body:
+        for x in ast.walk(n_):
+            if hasattr(x, 'lineno'):
+                x.lineno = comp.lineno
+                x.end_lineno = comp.lineno
+    out = copy.copy(fn)
+    out.body = list(rest) + new_body
+    return out
+
+
 def find_assets(ctx, o):
     P = ctx.P
     S = P.cls('System')
     fn = P.method(S, 'find_assets')[1]
-    g = ctx.graph(S, 'find_assets')
+    fn = _desugar_comprehension(fn)
+    g = ctx.B.build_func(S, S, fn)
+    ctx.units['graphs'] += 1
     params = [a.arg for a in fn.args.args][1:]
     if len(params) != 4:
         raise AnalysisError(f'System.find_assets has parameters {params}; the property names four filters')
@@ -595,7 +625,8 @@ def system_identity(ctx, o):
             o.count()
             if attr == '_instance' and s.func is None:
                 continue       # class attribute `_instance = None`
-            if s.ctx not in allowed:
+            names = inv.covered(P, {a_.split('.')[1] for a_ in allowed})
+            if not (s.cls is S and s.func is not None and s.func.name in names):
                 o.fail(P, s.ctx, s.stmt, f'{attr} is written outside {sorted(allowed)}', file=s.mod.path, line=s.line)
     for s in inv.attr_uses(P, '_assets'):
         role = s.extra['role']
